@@ -11,7 +11,7 @@ use std::{
     sync::Arc,
 };
 
-use crate::{Position, Size, common::clamp};
+use crate::{Position, Size};
 
 /// Shape object describing layout of data in the surface object
 #[derive(Debug, Clone, Copy, PartialOrd, Ord, PartialEq, Eq, Hash)]
@@ -840,29 +840,31 @@ fn index_i64<T: TryInto<i64>>(index: T) -> i64 {
 }
 
 fn range_bounds(bound: impl RangeBounds<i64>, size: usize) -> Option<(usize, usize)> {
-    //  (index + size) % size - almost works
-    //  0  1  2  3  4  5  6  7  8  9  0  1  2  3  4  5  6  7  8  9
-    //-10 -9 -8 -7 -6 -5 -4 -3 -2 -1  0  1  2  3  4  5  6  7  8  9
     let size = size as i64;
     if size == 0 {
         return None;
     }
 
-    let (start, offset) = match bound.start_bound() {
-        Bound::Unbounded => (0, 0),
-        Bound::Included(start) => (*start, 0),
-        Bound::Excluded(start) => (*start, 1),
+    // position of the element with python-like index (negative counts from the end)
+    let position = |index: i64| {
+        if index < 0 {
+            index.saturating_add(size)
+        } else {
+            index
+        }
     };
-    let offset = if start >= size { 1 } else { offset };
-    let start = clamp(start + size, 0, 2 * size - 1) % size + offset;
-
-    let (end, offset) = match bound.end_bound() {
-        Bound::Unbounded => (-1, 1),
-        Bound::Included(end) => (*end, 1),
-        Bound::Excluded(end) => (*end, 0),
-    };
-    let offset = if end >= size { 1 } else { offset };
-    let end = clamp(end + size, 0, 2 * size - 1) % size + offset;
+    let start = match bound.start_bound() {
+        Bound::Unbounded => 0,
+        Bound::Included(start) => position(*start),
+        Bound::Excluded(start) => position(*start).saturating_add(1),
+    }
+    .clamp(0, size);
+    let end = match bound.end_bound() {
+        Bound::Unbounded => size,
+        Bound::Included(end) => position(*end).saturating_add(1),
+        Bound::Excluded(end) => position(*end),
+    }
+    .clamp(0, size);
 
     if end <= start {
         None
